@@ -113,7 +113,7 @@ NINJA_QUOTE_BUILD_PAT = re.compile(r"[$ :\n]")
 NINJA_QUOTE_VAR_PAT = re.compile(r"[$ \n]")
 
 def ninja_quote(text: str, is_build_line: bool = False) -> str:
-    if '\n' in text:
+    if '\n' in text or '\r' in text:
         errmsg = f'''Ninja does not support newlines in rules. The content was:
 
 {text}
